@@ -6,7 +6,7 @@ from ..tables import (Atoms, TableRun, build_tier, compare_outcomes, declare_tie
 from . import common
 
 
-def tier_table(rep, rule, method, kind, k, extra, modes, call, spec, what, span_inside=None, post=None, eq=None, seams=False, as_atoms=True, span_atoms=True, strict_ties=False):
+def tier_table(rep, rule, method, kind, k, extra, modes, call, spec, what, span_inside=None, post=None, eq=None, seams=False, as_atoms=True, span_atoms=True, strict_ties=False, exact=False):
     """Generic: build a well-formed k-entry tier with span [m,M], declare extra atoms, run every mode.
 
     extra(at, ents) -> dict of symbols;  call(I, tier, sy, mode) -> value;  spec(O, ents, m, M, sy, mode) -> dict
@@ -37,6 +37,8 @@ def tier_table(rep, rule, method, kind, k, extra, modes, call, spec, what, span_
             if row[1] and row[2] != "dontcare" and got.kind == "ok" and want.kind == "ok" and "printed" in want.value:
                 if bool(got.value.get("printed")) != bool(want.value["printed"]):
                     row = (mode, False, "code %s a warning, spec %s" % ("prints" if got.value.get("printed") else "does not print", "expects one" if want.value["printed"] else "expects none"), None)
+            if exact and row[1] and getattr(I, "tolerance_calls", 0):
+                row = (mode, False, "times are compared with a tolerance (my_math.isclose) where the property compares them exactly: two distinct times closer than the tolerance are treated as one", None)
             out.append(row)
             if seams and got.kind == "ok" and got.value.get("class") == "IntervalTier":
                 from ..floatorder import seam_obligations
